@@ -740,6 +740,9 @@ func pkRunTrace(t *testing.T, r *Run, lines []string) {
 func pkCorpus() [][]string {
 	var out [][]string
 	root := ".."
+	if v := os.Getenv("VERIF_ROOT"); v != "" { // set by ./check: the harness may run from a private copy
+		root = v
+	}
 	if _, err := os.Stat(filepath.Join(root, "corpus")); err != nil {
 		if _, file, _, ok := runtime.Caller(0); ok { // not started from the harness directory
 			root = filepath.Dir(filepath.Dir(file))
